@@ -63,6 +63,30 @@ func runC13(l markupLine) Verdict {
 			return failf("ParseMarkup(%q): TextForAttribute(%s) = %q, want %q", input, a.Name, got, want)
 		}
 	}
+	// the same line through a dialogue runner (DialogueElement.Line.Attributes): escaped for the Yarn lexer
+	runnerLevel := false
+	if yarn, ok := yarnEscape(input); ok {
+		runnerLevel = true
+		dr, err := ysgo.NewDialogueRunner(nil, "abc", strings.NewReader("title: Start\n---\n"+yarn+"\n===\n"))
+		if err != nil {
+			return failf("the line %q, written in a script as %q, does not load: %v", input, yarn, err)
+		}
+		h := &host{dr: dr, storer: newRecStorer()}
+		var el *ysgo.DialogueElement
+		var nerr error
+		var p any
+		func() {
+			defer func() { p = recover() }()
+			el, nerr = dr.Next(0)
+		}()
+		_ = h
+		if p != nil || nerr != nil || el == nil || el.Line == nil {
+			return failf("the line %q, written in a script as %q: Next gives %+v, %v, panic %v", input, yarn, el, nerr, p)
+		}
+		if msg := compareMarkup(exp, &el.Line.ParseResult); msg != "" {
+			return failf("through a dialogue runner (script line %q): %s", yarn, msg)
+		}
+	}
 	// classification
 	markers, multibyteBefore, nestedOrOverlap, replacement, decimal := 0, false, false, false, false
 	seenMulti := l.Prefix != "" && len(l.Prefix) != utf8.RuneCountInString(l.Prefix)
@@ -111,6 +135,9 @@ func runC13(l markupLine) Verdict {
 	if l.Prefix != "" {
 		cls = append(cls, "character-prefix")
 	}
+	if runnerLevel {
+		cls = append(cls, "also-through-runner")
+	}
 	if multibyteBefore {
 		cls = append(cls, "multibyte-before-marker")
 	}
@@ -121,6 +148,35 @@ func runC13(l markupLine) Verdict {
 		cls = append(cls, "edge-whitespace")
 	}
 	return Verdict{NonTrivial: markers >= 2 && (multibyteBefore || nestedOrOverlap || replacement || decimal), Classes: cls}
+}
+
+// yarnEscape writes a markup line as the text of a Yarn line statement (ok = false when it cannot be a line).
+func yarnEscape(line string) (string, bool) {
+	if strings.TrimSpace(line) == "" || strings.ContainsAny(line, "\r\n") {
+		return "", false
+	}
+	var b strings.Builder
+	rs := []rune(line)
+	for i := 0; i < len(rs); i++ {
+		r := rs[i]
+		switch {
+		case r == '\\' && i+1 < len(rs) && (rs[i+1] == '[' || rs[i+1] == ']'):
+			b.WriteString(`\` + string(rs[i+1])) // escaped markup brackets pass through the lexer unchanged
+			i++
+		case strings.ContainsRune(`\<>{}#/`, r):
+			b.WriteString(`\` + string(r))
+		default:
+			b.WriteRune(r)
+		}
+	}
+	out := strings.TrimLeft(b.String(), " \t") // indentation: dropped (a mixture of both would be a syntax error)
+	if out == "" || strings.HasPrefix(out, `\[`) || strings.HasPrefix(out, `\]`) || strings.HasPrefix(out, "->") || strings.HasPrefix(out, "===") {
+		return "", false
+	}
+	if r := []rune(out)[0]; r == '\u00a0' || r == '\u3000' {
+		return "", false // other leading blanks are not indentation for the lexer but are trimmed from the text: keep it simple
+	}
+	return out, true
 }
 
 func renderC13(l markupLine) any { return renderMarkupLine(l) }
